@@ -248,15 +248,15 @@ def predict(prog, case, model, script):
                         name = prog.resolve_crate_fn('state::MainState::remove_user')
                         w.run_to_completion(M.run_fn(name, [Ref(w.main_cell), Ref(c['cell'])]))
                         c['dead'] = True
+                        socks[n].append('EOF')
                         break
     for client, line in script:
         c = conn_of(client)
-        if c.get('dead'): break
+        if c.get('dead'): continue
         c['src'].items.append(('line', mkstring(line)))
         n0 = len(outcomes)
         drain()
         if len(outcomes) == n0: outcomes.append('ok')
-        if c.get('dead'): break
     return socks, outcomes
 
 def line_regex(buf):
@@ -330,6 +330,7 @@ def replay_witness(run, prog, case, witness, release=False, probes=True):
         order = ([HELPER] if need_helper else []) + nicks
         for n in order:
             c = Client(srv.port, n); clients[n] = c
+            if spec.password: c.send('PASS ' + spec.password)
             c.send(f'NICK {n}'); c.send(f'USER {n} 0 * :Real {n}')
             got = c.barrier()
             if not any(b' 001 ' in l for l in got):
@@ -348,6 +349,7 @@ def replay_witness(run, prog, case, witness, release=False, probes=True):
         native = {n: [] for n in nicks}
         if unreg: native[UNREG] = []
         for who, ln in script:
+            if clients[who].eof: continue
             clients[who].send(ln)
             if who == UNREG:
                 time.sleep(0.4)
@@ -359,13 +361,18 @@ def replay_witness(run, prog, case, witness, release=False, probes=True):
             for n in nicks:
                 if n != who and not clients[n].eof:
                     native[n].extend(clients[n].barrier(timeout=3))
-            if clients[who].eof: break
         stderr = srv.stderr_text()
         panicked = 'panicked at' in stderr
         diffs = []
         for n in nicks + ([UNREG] if unreg else []):
             want = pred.get(n, [])
             have = [l for l in native[n] if not (n == UNREG and l == b'<EOF>')]
+            if want and want[-1] == 'EOF':
+                # the session ended by the protocol: the socket must be closed, cleanly
+                want = want[:-1]
+                if not (have and have[-1] == b'<EOF>') and n != UNREG:
+                    diffs.append(f'{n}: predicted end of session, but the socket stays open')
+                have = [l for l in have if l != b'<EOF>']
             if want and want[-1] is None:
                 # predicted panic: connection must die
                 if have and have[-1] == b'<EOF>' and panicked: continue
